@@ -274,18 +274,15 @@ impl DbValue {
                 }
             }
             I64_META_VALUE => {
-                let mut bytes = [0_u8; 8];
-                bytes.copy_from_slice(value_index.value());
+                let bytes: [u8; 8] = value_index.value().try_into()?;
                 DbValue::I64(i64::from_le_bytes(bytes))
             }
             U64_META_VALUE => {
-                let mut bytes = [0_u8; 8];
-                bytes.copy_from_slice(value_index.value());
+                let bytes: [u8; 8] = value_index.value().try_into()?;
                 DbValue::U64(u64::from_le_bytes(bytes))
             }
             F64_META_VALUE => {
-                let mut bytes = [0_u8; 8];
-                bytes.copy_from_slice(value_index.value());
+                let bytes: [u8; 8] = value_index.value().try_into()?;
                 DbValue::F64(DbF64::from(f64::from_le_bytes(bytes)))
             }
             STRING_META_VALUE => {
